@@ -111,6 +111,32 @@ def run_probe(name, y, act) -> dict | None:
     return ev
 
 
+def limit_cases(ctx: Ctx) -> list:
+    """the state-limit rule (env.clip) of the two mountain cars on every combination of position / velocity classes"""
+    import gymnasium as gym
+    import jax.numpy as jnp
+    out = []
+    for name, gid in (("MountainCar", "MountainCar-v0"), ("ContinuousMountainCar", "MountainCarContinuous-v0")):
+        g = gym.make(gid).unwrapped
+        lo, hi, ms = float(g.min_position), float(g.max_position), float(g.max_speed)
+        env = lerax_env(name)
+        xs = {"below": [lo - 0.3, lo - 1e-3, lo], "inside": [lo + 0.01, -0.5, 0.3, hi - 0.01], "above": [hi, hi + 1e-3, hi + 0.4]}
+        vs = {"neg_big": [-ms - 0.02, -2 * ms], "neg": [-ms / 2, -1e-3], "zero": [0.0], "pos": [1e-3, ms / 2], "pos_big": [ms + 0.02, 3 * ms]}
+        for xin, xl in xs.items():
+            for vin, vl in vs.items():
+                for x in xl:
+                    for v in vl:
+                        y = np.asarray(env.clip(jnp.asarray([x, v], dtype=jnp.float32)), dtype=np.float64)
+                        xout = "at_min" if abs(y[0] - lo) < 1e-6 else "at_max" if abs(y[0] - hi) < 1e-6 else "inside" if lo < y[0] < hi else "outside"
+                        vout = ("zero" if y[1] == 0.0 else "neg_max" if abs(y[1] + ms) < 1e-7 else "pos_max" if abs(y[1] - ms) < 1e-7
+                                else "neg" if -ms < y[1] < 0 else "pos" if 0 < y[1] < ms else "outside")
+                        # values exactly on a bound belong to both neighbouring input classes: classify the input consistently
+                        xi = "below" if x <= lo else "above" if x >= hi else "inside"
+                        out.append(dict(ev="limits", env=name, **REGION_KEYS, term=False, rew_m=0, xin=xi, vin=vin, xout=xout, vout=vout,
+                                        atoms={}, x=x, v=v))
+    return out
+
+
 def reset_cases(ctx: Ctx) -> list:
     import jax.random as jr
     out = []
@@ -188,6 +214,9 @@ def run(ctx: Ctx) -> Report:
             continue
         evs.append(ev)
         cases.append({"probe": [name, y, act]})
+    for ev in limit_cases(ctx):
+        evs.append(ev)
+        cases.append({"limits": ev["env"]})
     for ev in reset_cases(ctx):
         evs.append(ev)
         cases.append({"reset": ev["env"]})
@@ -210,7 +239,8 @@ def run(ctx: Ctx) -> Report:
                                             "accepted": len(v.accepted), "rejected": len(v.rejected)}
     for i, (l, clauses) in sorted(v.rejected.items()):
         e = evs[i]
-        det = ("goal_step" if e.get("goal") and e.get("fast") else "wall" if e.get("at_wall") else "other") if e["ev"] == "probe" else e["ev"]
+        det = ("goal_step" if e.get("goal") and e.get("fast") else "wall" if e.get("at_wall") else "other") if e["ev"] == "probe" else \
+            (f"limits:{e['xin']}:{e['vin']}" if e["ev"] == "limits" else e["ev"])
         rep.violations.append(Violation(f"C17:{e['env']}:" + "+".join(clauses) + f":{det}",
                                         f"{e['env']}: {e['ev']} violates {clauses}: { {k: x for k, x in e.items() if x not in (False, 0, {})} }",
                                         "refmdp", cases[i]))
@@ -234,6 +264,8 @@ def replay(ctx: Ctx, driver: str, case: dict) -> Report:
     if "probe" in case:
         ev = run_probe(*case["probe"])
         evs = [ev] if ev else []
+    elif "limits" in case:
+        evs = [e for e in limit_cases(ctx) if e["env"] == case["limits"]]
     elif "reset" in case:
         evs = [e for e in reset_cases(ctx) if e["env"] == case["reset"]]
     else:
